@@ -178,6 +178,9 @@ func bindVia(entry string, req *http.Request, got *Payload) (err error, pv any) 
 			}
 			// ... and it may have looked at the form fields before it binds (a CSRF check, a logger): for a JSON / XML
 			// body that leaves an empty, non-nil PostForm behind - the body is still the source
+			// ... and at the request's type, as a logger or a content negotiation step does
+			_, _, _ = c.ContentType(), c.AcceptedTypes(), c.IsAjax()
+			_, _ = c.Header("Content-Type"), c.Length()
 			switch preParse {
 			case 1:
 				_ = c.Post("csrf_token")
